@@ -270,6 +270,14 @@ theorem emit_parse_roundtrip (j : OutMsg) (hm : j.m ≠ [])
       { v := version, id := j.id, m := j.m, p := j.p, hasE := false, r := [], extra := false, errs := [] } :=
   parse_emitted_request j hm (hid.imp id (fun h => ⟨partB_spec _ h.1, h.2⟩)) (hp.imp id (fun h => ⟨partB_spec _ h.1, h.2⟩))
 
+/-- **emit / parse round trip for successful responses**: the same for `{"jsonrpc":"2.0","id":…,
+"result":…}` - the id and the result text come back unchanged, no error is flagged -/
+theorem emit_parse_roundtrip_result (j : OutMsg) (hm : j.m = []) (hid : j.id ≠ []) (hr : j.r ≠ [])
+    (pid : partB j.id = true) (hvid : isValidID j.id = true) (pr : partB j.r = true) :
+    parseMember (memberView (toJSON j)) =
+      { v := version, id := j.id, m := [], p := [], hasE := false, r := j.r, extra := false, errs := [] } :=
+  parse_emitted_result j hm hid hr (partB_spec _ pid) hvid (partB_spec _ pr)
+
 /-- the string escaping is lossless: decoding a quoted method name (or key) gives it back -/
 theorem quote_roundtrip (x : Bytes) : unquote (quote x) = some x := unquote_quote x
 
